@@ -260,8 +260,8 @@ Pipe_Forward ==
   /\ rd' = rd + inK /\ inK' = 0
   /\ UNCHANGED <<mode, hdr, sfam, pay, written, nseg, st, index, stage, cursor, segs>>
 
-SozuStep == Expect_PanicOnConnect \/ Expect_Readable \/ Relay_Readable \/ Relay_BackWritable
-            \/ (\E k \in {GLen - cursor} \cup {c - cursor : c \in SendCuts} : Send_BackWritable(k)) \/ Pipe_Forward
+Send_Step == \E k \in {GLen - cursor} \cup {c - cursor : c \in SendCuts} : Send_BackWritable(k)
+SozuStep == Expect_PanicOnConnect \/ Expect_Readable \/ Relay_Readable \/ Relay_BackWritable \/ Send_Step \/ Pipe_Forward
 
 \* ---- environment ------------------------------------------------------------
 \* sozu is parked in epoll: no step of the session is enabled (explicit form of ~ENABLED SozuStep)
